@@ -65,8 +65,8 @@ def _pyx_tests():
         from cyx import translate
         tree, text, decls, structs = translate.build(env.read(PFILE), filename=env.repo_path(PFILE))
         f = regions.find_function(tree, 'get_mapping')
-        first = regions.locate(f, 'for[0]/if[0]').test
-        inner_if = regions.locate(f, 'try[0]/while[0]/if[0]/else/for[0]/if[0]')
+        first = regions.locate(f, 'for[0]{mask1}/if[0]{mask1}').test
+        inner_if = regions.locate(f, 'try[0]{mask1}/while[0]{mask1}/if[0]{mask1}/else/for[0]{mask1}/if[0]{mask1}')
         closure_if = regions.locate(inner_if, 'if[0]/if[0]/for[0]/if[0]')
         noclos_if = regions.locate(inner_if, 'if[0]/else/for[0]/if[0]')
         _SRC['pyx'] = dict(first=first, inner=inner_if.test, closure=closure_if.test, noclosure=noclos_if.test,
